@@ -193,6 +193,19 @@ func init() {
 		}
 		return sum, false
 	})
+	reg("NCSPosts", func(e *Exec, fv *FuncV, args []Value, cc *ssa.CallCommon) (Value, bool) {
+		posts, _ := e.ext["ncs.posts"].([]Value)
+		st := fv.Fn.Signature.Results().At(0).Type().Underlying().(*types.Slice)
+		if len(posts) == 0 {
+			return &SliceV{}, false
+		}
+		arr := &ArrayV{E: make([]Value, len(posts))}
+		for i, p := range posts {
+			arr.E[i] = copyVal(p)
+		}
+		obj := e.newObject(types.NewArray(st.Elem(), int64(len(posts))), arr, "ncs posts")
+		return &SliceV{Arr: obj, Len: len(posts), Cap: len(posts)}, false
+	})
 	reg("Symbolic", func(e *Exec, fv *FuncV, args []Value, cc *ssa.CallCommon) (Value, bool) {
 		return e.C.True, false
 	})
